@@ -92,8 +92,12 @@ CHECKS = {
         design="DESIGN.md §3 C19"),
 }
 
+CHECKS["C11"] = dict(
+    technique="gate walks on SSA (blob returned only across the commitment comparison; parse's count and error tests; not-found mapping) + closure/free-variable binding analysis of the verifyFn callbacks + dataflow provenance and expression shape of the start index + sibling agreement of GetAll's per-namespace slots",
+    text="Level 'other', the frame around the share parser only: decides that a blob is returned by commitment only if it is the parsed blob of this iteration and only across the comparison of its recomputed commitment with the requested one; that parse builds blob, commitment and index from the collected shares behind its count and error tests; that the shares walked are the requested namespace's data at the requested height; the not-found mapping (getter failure, absence proof, fall-through; only not-found becomes an empty listing); that GetAll collects every parsed blob per namespace in order and joins errors; that the start index derives from row counter x square width + proof start. The parser's state machine over paddings, sequence lengths and row boundaries - the for-all-layouts part of the property - is value-level and NOT decided.",
+    design="DESIGN.md §8.7")
+
 NOT_APPLICABLE = {
-    "C11": "share-parsing state machine over all square layouts is a value-level property; the only structural clause (parser input comes from a verified getter) is C06's; no sound static rule in reach (DESIGN.md §3 C11)",
 }
 
 ALL = ["C%02d" % i for i in range(1, 21)]
